@@ -14,7 +14,9 @@ TOPOLOGIES = [
     "group:2 group:3 pu:2",
     "pack:2 group:2 group:2 pu:2",
 ]
-NAMES = ["lat", "bw", "hops", "x", "NUMALatency", "-"]
+LONG_NAME = "L" + "ong-name_0123456789" * 12
+# "-" is NULL, '""' is the empty string; a shared name, XML-special characters, a long name
+NAMES = ["lat", "bw", "hops", "x", "NUMALatency", "-", '""', "a&b<c>'q\"=", LONG_NAME]
 
 
 def constants(tables_v):
@@ -297,6 +299,41 @@ def gen_follow_case(rng, k):
         else:
             lines.append(ev)
         lines.append("get all 0 0 0 8")
+    return lines
+
+
+def gen_name_case(rng, k):
+    """names: NULL, empty, shared by two structures, XML-special characters, long; get_by_name for every
+    name of the pool and an absent one after every event (add, dup, export-import, restrict, refresh)"""
+    topo = rng.choice(["numa:4 core:2 pu:2", "pack:2 numa:2 core:2 pu:1"])
+    pool = ["-", '""', "a", "shared", "a&b<c>'q\"=", LONG_NAME, "x y".replace(" ", "_")]
+    lines = ["topo " + topo]
+    types = [k.PU, k.NUMA, k.CORE]
+
+    def queries():
+        qs = []
+        for nm in pool + ["absent"]:
+            if rng.random() < 0.75:
+                qs.append("get name %s 0 0 %d" % (nm, rng.choice([1, 2, 4])))
+        qs.append("get all 0 0 0 8")
+        return qs
+    n = rng.choice([2, 3, 4, 5])
+    names = [rng.choice(pool) for _ in range(n)]
+    if rng.random() < 0.6:
+        names[rng.randrange(n)] = '""'
+    if n >= 3 and rng.random() < 0.5:
+        names[0] = names[1] = "shared"
+    for i, nm in enumerate(names):
+        t = rng.choice(types)
+        mixed = rng.random() < 0.25
+        refs = ["%d:%d" % (rng.choice(types) if mixed else t, i + j) for j in range(2)]
+        lines += ["create %d %s %d 0" % (i % 8, nm, rng.choice([0, 1, 2]) | rng.choice([4, 8, 32])),
+                  "values %d 0 2 %s %d %d %d %d" % (i % 8, " ".join(refs), 10 * i + 1, 10 * i + 2, 10 * i + 3, 10 * i + 4),
+                  "commit %d 0" % (i % 8)]
+    lines += queries()
+    for _ in range(rng.choice([1, 2, 3])):
+        lines.append(rng.choice(["xml", "xml", "dup", "restrict 0xffff 0", "refresh", "xml"]))
+        lines += queries()
     return lines
 
 
